@@ -1,6 +1,6 @@
 (* C07 — property theorems only.  Each is closed by `exact` of a lemma of C07_Proofs.v. *)
 From Coq Require Import List NArith Bool String.
-From Dae Require Import C07_Spec C07_Model C07_Proofs C07_ProofsSplit C07_ProofsRouter C07_ProofsFwd.
+From Dae Require Import C07_Spec C07_Model C07_Proofs C07_ProofsSplit C07_ProofsRouter C07_ProofsFwd C07_ProofsLookup.
 From Dae.gen Require C07_FwdKey.
 From Dae.gen Require Import C07_Consts.
 Import ListNotations.
@@ -242,3 +242,32 @@ Theorem C07_forwarder_for_chosen_upstream :
     carried_ok (map fs_u h) (fst (run_forward [] h)) = true.
 Proof. exact C07_forwarder_for_chosen_upstream_proof. Qed.
 Print Assumptions C07_forwarder_for_chosen_upstream.
+
+(* ================================================================================================ *)
+(* Router.LookupIPAddr: one question per address family, each routed on its own                       *)
+(* ================================================================================================ *)
+
+(* EACH QUESTION IS ROUTED.  For every well-formed written section, router, subject (named upstream or none), host
+   and requested family (tcp/udp = A then AAAA, tcp4/udp4 = A, tcp6/udp6 = AAAA): the upstream selectUpstream yields
+   for the question (host, t) is the first-match decision for exactly that name and THAT query type (named upstream
+   first; asis/reject = no question sent), and the whole lookup sends exactly those questions, in order, falling back
+   to the bootstrap / base resolver only when no question was sent. *)
+Theorem C07_router_each_question_routed :
+  forall (rc : rconfig) (r : router) (named : option string) (control host : string) (ver : N) (bm : list N) (q : question),
+    wf_rconfig rc = true -> router_new rc = Ok (Some r) -> named_ok (rc_upstreams rc) named ->
+    C07_domain_oracle_agrees (ro_req r) bm q ->
+    (forall t, select_upstream r (match named with Some n => n | None => ""%string end) bm (with_type q t)
+               = Ok (question_plan rc named host (with_type q t))) /\
+    dialer_lookup r named control host ver bm q = lookup_spec rc named control host ver q.
+Proof. exact C07_router_each_question_routed_proof. Qed.
+Print Assumptions C07_router_each_question_routed.
+
+(* Reusing the upstream found for the A question for the AAAA question is refuted by `qtype(aaaa) -> dns6`. *)
+Theorem C07_reuse_first_family_refuted :
+  wf_rconfig reuse_rc = true /\
+  question_plan reuse_rc None "node.example.org" (with_type reuse_q 1) = PlanUp 0 /\
+  question_plan reuse_rc None "node.example.org" (with_type reuse_q 28) = PlanUp 1 /\
+  lookup_spec reuse_rc None "" "node.example.org" 0 reuse_q = ([(1, 0); (28, 1)], 0) /\
+  lookup_spec reuse_rc None "" "node.example.org" 0 reuse_q <> (map (fun t => (t, 0)) (families 0), 0).
+Proof. exact C07_reuse_first_family_refuted_proof. Qed.
+Print Assumptions C07_reuse_first_family_refuted.
